@@ -482,7 +482,9 @@ def judgeCore (m : HMon) (op : Op) (o : Obs) : HMon × List (String × String) :
     -- C02 / C07: no panic inside the limits
     if o.status ≠ "ok" then
       ({ m with judged := false }, [("C02", s!"call inside the limits answered '{o.status}'"), ("C07", s!"call inside the limits answered '{o.status}'"),
-        ("C06", s!"call inside the limits answered '{o.status}'")])
+        ("C06", s!"call inside the limits answered '{o.status}'"),
+        -- and of the property that says what this call does
+        ((match op with | .add _ => "C04" | .nextId => "C05" | _ => "C03"), s!"call inside the limits answered '{o.status}'")])
     else
       -- C02: alive set equals the reference's
       let rej := if o.keys ≠ eKeys then
@@ -648,7 +650,8 @@ def judgeLine2 (j : JSt) (lineNo : Nat) (opLine obsLine : String) : JSt :=
       let j := { j with merges := j.merges + 1 }
       match j.getMon a, j.getMon b with
       | some ma, some mb =>
-        if ¬ ma.judged ∨ ¬ mb.judged then j.setMon a { ma with watch := false }
+        -- a merge from a graph that is no longer judged leaves the left graph in a state the reference does not know
+        if ¬ ma.judged ∨ ¬ mb.judged then j.setMon a { ma with judged := false, watch := false }
         else
           match refMerge ma.n ma.cap mb.cap ma.r mb.r l r with
           | none => j.setMon a { ma with judged := false }
@@ -685,6 +688,9 @@ def judgeLine2 (j : JSt) (lineNo : Nat) (opLine obsLine : String) : JSt :=
               let j := if gotOut ≠ wantOut ∨ o.keys ≠ R.keys ra' ma.cap then
                   j.reject (if bothTrees then "C11" else "REF") lineNo s!"merge answers '{gotOut}' with {showNats o.keys}; the reference run gives '{wantOut}' with {showNats (R.keys ra' ma.cap)}"
                 else j
+              -- merge is not a read: it removes nobody (C01)
+              let lostIds := ma.prevKeys.filter (· ∉ o.keys)
+              let j := if lostIds ≠ [] ∧ o.status ≠ "panic" then j.reject "C01" lineNo s!"{showNats lostIds} removed by merge, which is not a read" else j
               -- ids created inside merge are fresh (C05)
               let newIds := o.keys.filter (· ∉ ma.prevKeys)
               let j := if newIds.any (· ∈ ma.hist.issued) then j.reject "C05" lineNo s!"merge created a vertex under an id returned before: {showNats newIds}" else j
@@ -742,6 +748,8 @@ def judgeLine2 (j : JSt) (lineNo : Nat) (opLine obsLine : String) : JSt :=
             let j := { j with scriptsJudged := j.scriptsJudged + 1, scriptCommands := j.scriptCommands + k,
                               scriptsMalformed := j.scriptsMalformed + (if wellFormed then 0 else 1) }
             let count := (words o.payload).headD ""
+            -- every call the script makes is within the limits (`valid`): a panic is a violation of C07 of its own
+            let j := if o.status = "panic" then j.reject "C07" lineNo "script whose calls are all within the limits answered 'panic'" else j
             let j := if wellFormed ∧ (o.status ≠ "ok" ∨ count ≠ toString prog.length) then
                 j.reject "C14" lineNo s!"well-formed script of {prog.length} commands answered '{o.status} {count}'"
               else if ¬ wellFormed ∧ o.status ≠ "err" then
@@ -848,7 +856,7 @@ def judgeLine2 (j : JSt) (lineNo : Nat) (opLine obsLine : String) : JSt :=
                 let o := parseObs obsLine
                 if o.status ≠ "ok" then
                   let j := j.setMon a { m with watch := false }
-                  ["C02", "C06", "C07"].foldl (fun j p => j.reject p lineNo (opLine.trimAscii.toString ++ s!": call inside the limits answered '{o.status}' (after an earlier rejection on this handle)")) j
+                  ["C02", "C06", "C07", (match op with | .add _ => "C04" | .nextId => "C05" | _ => "C03")].foldl (fun j p => j.reject p lineNo (opLine.trimAscii.toString ++ s!": call inside the limits answered '{o.status}' (after an earlier rejection on this handle)")) j
                 else
                   let r' := (R.step m.cap m.r op).1
                   let r' := if m.steps % 24 = 23 then compactR m.cap r' else r'
